@@ -10,7 +10,7 @@ from spacepackets.cfdp.lv import CfdpLv
 from spacepackets.util import UnsignedByteField
 
 PROPERTY = "C18"
-OUTSIDE = ["names longer than listed (plus one 255-octet case with concrete filler)", "message-to-user contents longer than "
+OUTSIDE = ["names longer than listed (plus 200-octet cases with concrete filler)", "message-to-user contents longer than "
            "listed for the 'answers False, never raises' clause"]
 ASSUMPTIONS = ["reference: TLV type 2, value = 'cfdp', message type octet, fields: put request 00 = LV dest id, LV source, LV "
                "dest; put response 07 = cond<<4|delivery<<2|file status; cancel 09; closure 0B = flag; transmission mode 04 = "
@@ -174,7 +174,7 @@ def h_other_content(ctx, n):
 
 def cases(tier):
     cs = []
-    lens = tier_pick(tier, ((0, 0), (1, 2), (2, 0), (0, 1)), ((0, 0), (1, 2), (2, 0), (0, 1), (3, 3), (255, 1), (2, 200)))
+    lens = tier_pick(tier, ((0, 0), (1, 2), (2, 0), (0, 1)), ((0, 0), (1, 2), (2, 0), (0, 1), (3, 3), (200, 1), (2, 200)))
     for w in (1, 2, 4, 8):
         for n1, n2 in lens:
             cs.append(Case("putreq-w%d-%d-%d" % (w, n1, n2), "putreq", h_put_request, dict(w=w, n1=n1, n2=n2),
